@@ -431,7 +431,7 @@ func (ix *index) extFor(entries int) []uint16 {
 			if ix.bsize == 34 {
 				max = 271
 			}
-			return []uint16{uint16(2 + (entries/256+ix.r.Intn(3))%max)}
+			return []uint16{uint16(2 + (entries/256)%max)} // distinct for the sections of one block
 		}
 		return []uint16{1}
 	}
@@ -779,7 +779,13 @@ func (ix *index) epilogue() {
 	if !ix.open("writer", top) {
 		return
 	}
-	need := 300 - int(ix.w.Live().Desc.Entries)%256
+	// at least one block rotation and then one more section start
+	live := ix.w.Live()
+	per := 1
+	if ix.bsize != 0 {
+		per = 3
+	}
+	need := (4096-live.DataLen)/per + 300
 	ix.appendItems(ix.nextIDs(top, need))
 	ix.finish()
 	ix.close()
@@ -802,10 +808,15 @@ func (ix *index) epilogue() {
 	ix.close()
 	ix.observe(false)
 	if ds := ix.meta(); len(ds) > 0 {
-		ix.prune(ds[0].Max) // the first block still holds an id >= tail
-		ix.observe(false)
-		ix.prune(ds[0].Max + 1) // now it does not
-		ix.observe(false)
+		if len(ds) > 1 {
+			ix.prune(ds[1].Max) // the first block goes, the second still holds an id >= tail
+			ix.observe(false)
+		}
+		if ds = ix.meta(); len(ds) > 0 {
+			ix.prune(ds[0].Max) // the block still holds an id >= tail
+			ix.prune(ds[0].Max + 1) // now it does not
+			ix.observe(false)
+		}
 	}
 }
 
